@@ -58,6 +58,20 @@ def items_for(mode, tier):
             for mname in ['read_inline_number', 'read_crossline_number']:
                 items.append(mk_item(mname, bs, rate, (2, 2, 1), mode, tier, dict(il_step=step[0], xl_step=step[1],
                                                                                      dimcap=2 if tier == 'quick' else 4)))
+    # header accessors on files with stored arrays (both footer-stride conventions)
+    hdr_names = ['gen_trace_header', 'gen_trace_header_all', 'get_tracefield_values_0', 'get_tracefield_values_1']
+    for (bs, rate) in ([((4, 4, 256), 8)] if tier == 'quick' else [((4, 4, 256), 8), ((8, 8, 64), 8), ((64, 64, 4), 2)]):
+        for ver in (spec.encode_version(0, 2, 5, True), spec.encode_version(0, 1, 9, True)):
+            for stored in ([(73, 189, 193)] if tier == 'quick' else [(73, 189, 193), (1, 193), (5, 9, 189, 193)]):
+                for mname in hdr_names:
+                    if mode == 'out' and mname.startswith('get_tracefield'):
+                        continue
+                    items.append(mk_item(mname, bs, rate, (2, 2, 1), mode, tier, dict(version=ver, stored=stored)))
+    for (bs, rate) in ([((1, 16, 256), 8)] if tier == 'quick' else [((1, 16, 256), 8), ((1, 4, 1024), 8)]):
+        for mname in hdr_names:
+            if mode == 'out' and mname.startswith('get_tracefield'):
+                continue
+            items.append(mk_item(mname + '_2d', bs, rate, (2, 2), mode, tier, dict(stored=(1, 115, 189))))
     for (bs, rate) in lay2:
         for nb in ([(2, 2)] if tier == 'quick' else [(1, 1), (2, 2), (3, 2), (2, 3)]):
             if nb[1] * bs[2] > 2 ** 17:
@@ -78,6 +92,8 @@ def mk_item(mname, bs, rate, nb, mode, tier, opts=None):
     for k in ('il_step', 'xl_step'):
         if k in opts:
             desc += '|%s=%s' % (k, opts[k])
+    if 'stored' in opts:
+        desc += '|stored=%s|version=%s' % ('+'.join(map(str, opts['stored'])), opts['version'])
     it = Item(desc, lambda: readers.item_fn(mname, bs, rate, nb, mode, opts), timeout_s=150 if tier == 'quick' else 900,
               solver_ms=10000 if tier == 'quick' else 60000)
     it.meta = dict(method=mname, bs=list(bs), rate=rate, nb=list(nb), mode=mode, opts={k: v for k, v in opts.items() if k != 'after_call'})
@@ -87,7 +103,7 @@ def mk_item(mname, bs, rate, nb, mode, tier, opts=None):
 def replay_candidate(it, c):
     meta = it.meta
     req = dict(kind='reader', method=meta['method'], bs=meta['bs'], rate=meta['rate'], model=c['model'],
-               version=meta['opts'].get('version'), il_step=meta['opts'].get('il_step', 1), xl_step=meta['opts'].get('xl_step', 1))
+               version=meta['opts'].get('version'), stored=list(meta['opts'].get('stored', ())), il_step=meta['opts'].get('il_step', 1), xl_step=meta['opts'].get('xl_step', 1))
     ax = meta['opts'].get('axes')
     if isinstance(ax, (tuple, list)):
         req['il0'], req['xl0'] = ax
